@@ -351,3 +351,30 @@ func shallow(hs hasher, v reflect.Value, depth int) {
 		}
 	}
 }
+
+// PointerOf: identity of a pointer-like value (0 for anything else).
+func PointerOf(x any) uintptr {
+	v := reflect.ValueOf(x)
+	switch v.Kind() {
+	case reflect.Ptr, reflect.Map, reflect.Chan, reflect.UnsafePointer:
+		return v.Pointer()
+	}
+	return 0
+}
+
+// HashPointee hashes the content of the struct behind a pointer (scalars, strings, arrays by value; references by
+// identity; fields of struct types the walker does not descend into — time.Time … — contribute nothing).
+func HashPointee(x any) (h uint64, ok bool) {
+	defer func() {
+		if r := recover(); r != nil {
+			h, ok = 0, false
+		}
+	}()
+	v := reflect.ValueOf(x)
+	if v.Kind() != reflect.Ptr || v.IsNil() {
+		return 0, false
+	}
+	hs := fnv.New64a()
+	shallow(hs, v.Elem(), 0)
+	return hs.Sum64(), true
+}
